@@ -50,6 +50,9 @@ type stepResult struct {
 	Next   *implState
 	Detail string
 	Code   string
+	// LA is set when Kind == "lookahead": the result depends on the byte that follows.
+	LA            map[int]*stepResult
+	LastByteCrash string
 }
 
 func newPEConfig(c *load.Ctx) *pe.Config {
@@ -211,16 +214,25 @@ type microResult struct {
 	state  pe.Value
 	detail string
 	code   string
+	la     int // value of the look-ahead byte this result depends on (-1: none)
 }
 
-// micro runs Next() once. first is the byte at the current index (0..255), -1 for "no byte
-// available yet" (CUT at the first read) or -2 for end of input.
-func (m *scanModel) micro(st pe.Value, first int, lastConsumed string) microResult {
+const (
+	modeByte     = iota // a byte at the current index, more input follows
+	modeLastByte        // a byte at the current index which is the last byte of the input
+	modeDrain           // no byte may be read: deliver queued events only
+	modeEOF             // end of input
+)
+
+// micro runs Next() once in the given mode. It returns one result, or several when the behaviour
+// depends on the byte after the current one (look-ahead), each labelled with that byte.
+func (m *scanModel) micro(st pe.Value, mode int, first int, lastConsumed string) []microResult {
 	m.runs++
-	var final pe.Value
+	finals := []pe.Value{}
+	var laName string
 	outs := pe.ExploreFn(m.cfg, func(in *pe.Interp) pe.Value {
 		root := pe.Clone(st).(*pe.Ptr)
-		final = root
+		finals = append(finals, root)
 		sv := root.Obj.Val.(*pe.StructV)
 		stT := sv.T.Underlying().(*types.Struct)
 		var idx *pe.Sym
@@ -238,23 +250,31 @@ func (m *scanModel) micro(st pe.Value, first int, lastConsumed string) microResu
 		if idx == nil || dataName == "" {
 			in.Undecided("scanner fields index/data are not symbolic as expected")
 		}
+		var remaining int64
+		switch mode {
+		case modeByte, modeDrain:
+			remaining = 2
+		case modeLastByte:
+			remaining = 1
+		}
 		for i := 0; i < stT.NumFields(); i++ {
 			if stT.Field(i).Name() == "dataSize" {
-				if first == -2 {
-					sv.F[i] = &pe.Sym{Expr: idx.Expr, Off: idx.Off, T: stT.Field(i).Type()}
-				} else {
-					sv.F[i] = &pe.Sym{Expr: idx.Expr, Off: idx.Off + 2, T: stT.Field(i).Type()}
-				}
+				sv.F[i] = &pe.Sym{Expr: idx.Expr, Off: idx.Off + remaining, T: stT.Field(i).Type()}
+				in.SetSymLen(dataName, &pe.Sym{Expr: idx.Expr, Off: idx.Off + remaining, T: stT.Field(i).Type()})
 			}
 		}
 		at := func(off int64) string {
 			return dataName + "[" + pe.Show(&pe.Sym{Expr: idx.Expr, Off: idx.Off + off}) + "]"
 		}
-		if first >= 0 {
+		switch mode {
+		case modeByte:
 			in.SetSymMem(at(0), int64(first))
-			in.SetSymMem(at(1), pe.CutV{})
-		} else if first == -1 {
-			in.SetSymMem(at(0), pe.CutV{})
+			in.CutAddr, in.CutDepth = at(1), 1
+			laName = at(1)
+		case modeLastByte:
+			in.SetSymMem(at(0), int64(first))
+		case modeDrain:
+			in.CutAddr, in.CutDepth = at(0), 1
 		}
 		ret := in.Call(m.next, []pe.Value{root})
 		tp, ok := ret.(*pe.Tuple)
@@ -267,14 +287,43 @@ func (m *scanModel) micro(st pe.Value, first int, lastConsumed string) microResu
 		e := in.Call(m.lexEnd, []pe.Value{tp.E[0]})
 		return &pe.Tuple{E: []pe.Value{t, b, e, tp.E[1]}}
 	})
-	if len(outs) != 1 {
-		var vs []string
-		for _, o := range outs {
-			vs = append(vs, "{"+o.Valuation()+" => "+o.Exit()+"}")
+	var results []microResult
+	for k, o := range outs {
+		la := -1
+		foreign := ""
+		for _, ch := range o.Choices {
+			if laName != "" && ch.Name == laName {
+				la = ch.Val
+			} else {
+				foreign = ch.Name
+			}
 		}
-		return microResult{kind: "undecided", detail: "behaviour depends on atoms outside the abstract state: " + strings.Join(vs, " ")}
+		if foreign != "" && len(outs) > 1 {
+			var vs []string
+			for _, o := range outs {
+				vs = append(vs, "{"+o.Valuation()+" => "+o.Exit()+"}")
+				if len(vs) > 6 {
+					vs = append(vs, "…")
+					break
+				}
+			}
+			return []microResult{{kind: "undecided", la: -1, detail: "behaviour depends on atom " + foreign + " outside the abstract state: " + strings.Join(vs, " ")}}
+		}
+		var final pe.Value
+		if k < len(finals) {
+			final = finals[k]
+		}
+		mr := m.classify(o, final, lastConsumed)
+		mr.la = la
+		results = append(results, mr)
 	}
-	o := outs[0]
+	if len(results) == 0 {
+		return []microResult{{kind: "undecided", la: -1, detail: "no outcome"}}
+	}
+	return results
+}
+
+func (m *scanModel) classify(o *pe.Outcome, final pe.Value, lastConsumed string) microResult {
 	switch {
 	case o.Undecided != "":
 		return microResult{kind: "undecided", detail: o.Undecided}
@@ -381,63 +430,53 @@ func (m *scanModel) Feed(st *implState, input int) *stepResult {
 }
 
 func (m *scanModel) feed(st *implState, input int) *stepResult {
-	res := &stepResult{}
-	cur := st.root
 	if input >= 0 {
-		mr := m.micro(cur, input, "i")
-		switch mr.kind {
-		case "cut":
-			res.Kind = "ok"
-			res.Next = m.normaliseShift(mr.state)
-			return res
-		case "event":
-			res.Events = append(res.Events, mr.ev)
-			cur = mr.state
-		case "end":
-			res.Kind, res.Detail = "crash", "Next reported end of input although a byte was available"
-			return res
-		default:
-			res.Kind, res.Detail, res.Code = mr.kind, mr.detail, mr.code
-			return res
+		mrs := m.micro(st.root, modeByte, input, "i")
+		if len(mrs) == 1 {
+			return m.finishByte(mrs[0])
 		}
-		// drain
-		for n := 0; ; n++ {
-			if n > 16 {
-				res.Kind, res.Detail = "undecided", "more than 16 events queued on one byte"
-				return res
-			}
-			mr := m.micro(cur, -1, "i")
-			switch mr.kind {
-			case "cut":
-				res.Kind = "ok"
-				res.Next = m.normaliseShift(mr.state)
-				return res
-			case "event":
-				res.Events = append(res.Events, mr.ev)
-				cur = mr.state
-			default:
-				res.Kind, res.Detail, res.Code = mr.kind, mr.detail, mr.code
-				if mr.kind == "end" {
-					res.Kind, res.Detail = "crash", "Next reported end of input although bytes remain"
-				}
-				return res
+		// the behaviour depends on the following byte (look-ahead)
+		res := &stepResult{Kind: "lookahead"}
+		byLA := map[int]*stepResult{}
+		sig := map[string]bool{}
+		for _, mr := range mrs {
+			r := m.finishByte(mr)
+			byLA[mr.la] = r
+			sig[r.signature()] = true
+		}
+		if len(byLA) != 256 {
+			return &stepResult{Kind: "undecided", Detail: fmt.Sprintf("look-ahead fork covers %d of 256 byte values", len(byLA))}
+		}
+		// a look-ahead read when the consumed byte is the last byte of the input
+		for _, mr := range m.micro(st.root, modeLastByte, input, "i") {
+			if mr.kind == "crash" {
+				res.LastByteCrash = mr.detail
 			}
 		}
+		if len(sig) == 1 && res.LastByteCrash == "" {
+			return byLA[0]
+		}
+		res.LA = byLA
+		return res
 	}
 	// end of input
+	res := &stepResult{}
+	cur := st.root
 	for n := 0; ; n++ {
 		if n > 16 {
 			res.Kind, res.Detail = "undecided", "more than 16 events at end of input"
 			return res
 		}
-		mr := m.micro(cur, -2, "i-1")
+		mrs := m.micro(cur, modeEOF, 0, "i-1")
+		if len(mrs) != 1 {
+			res.Kind, res.Detail = "undecided", "several outcomes at end of input"
+			return res
+		}
+		mr := mrs[0]
 		switch mr.kind {
 		case "event":
 			res.Events = append(res.Events, mr.ev)
-			cur = mr.state
-			// index may have been advanced by the tail rule; keep "i" meaning the first unread
-			// position: re-normalise without shifting stack tags
-			cur = m.resetIndex(cur)
+			cur = m.resetIndex(mr.state)
 		case "end":
 			res.Kind = "end"
 			return res
@@ -446,6 +485,62 @@ func (m *scanModel) feed(st *implState, input int) *stepResult {
 			return res
 		default:
 			res.Kind, res.Detail, res.Code = mr.kind, mr.detail, mr.code
+			return res
+		}
+	}
+}
+
+func (r *stepResult) signature() string {
+	k := ""
+	if r.Next != nil {
+		k = r.Next.key
+	}
+	return r.Kind + "\x00" + evsString(r.Events) + "\x00" + k + "\x00" + r.Code
+}
+
+// finishByte completes a byte transition whose first Next() call gave mr: drains queued events.
+func (m *scanModel) finishByte(mr microResult) *stepResult {
+	res := &stepResult{}
+	var cur pe.Value
+	switch mr.kind {
+	case "cut":
+		res.Kind = "ok"
+		res.Next = m.normalise(mr.state)
+		return res
+	case "event":
+		res.Events = append(res.Events, mr.ev)
+		cur = mr.state
+	case "end":
+		res.Kind, res.Detail = "crash", "Next reported end of input although a byte was available"
+		return res
+	default:
+		res.Kind, res.Detail, res.Code = mr.kind, mr.detail, mr.code
+		return res
+	}
+	for n := 0; ; n++ {
+		if n > 16 {
+			res.Kind, res.Detail = "undecided", "more than 16 events queued on one byte"
+			return res
+		}
+		mrs := m.micro(cur, modeDrain, 0, "i")
+		if len(mrs) != 1 {
+			res.Kind, res.Detail = "undecided", "several outcomes while delivering queued events"
+			return res
+		}
+		mr := mrs[0]
+		switch mr.kind {
+		case "cut":
+			res.Kind = "ok"
+			res.Next = m.normalise(mr.state)
+			return res
+		case "event":
+			res.Events = append(res.Events, mr.ev)
+			cur = mr.state
+		default:
+			res.Kind, res.Detail, res.Code = mr.kind, mr.detail, mr.code
+			if mr.kind == "end" {
+				res.Kind, res.Detail = "crash", "Next reported end of input although bytes remain"
+			}
 			return res
 		}
 	}
@@ -463,9 +558,6 @@ func (m *scanModel) resetIndex(st pe.Value) pe.Value {
 	return root
 }
 
-func (m *scanModel) normaliseShift(st pe.Value) *implState {
-	return m.normalise(st)
-}
 
 // stackTypes returns the types of the events on the scanner's stack (outermost first).
 func (m *scanModel) stackTypes(st *implState) []string {
